@@ -1,4 +1,137 @@
-From Coq Require Import ZArith List Bool.
+(* C16/Properties.v — property theorems only: statement, `exact`, Print Assumptions. *)
+From Coq Require Import ZArith List Bool Sorted.
 From C16 Require Import Generated Model Proofs.
-Theorem C16_stub : True. Proof. exact stub. Qed.
-Print Assumptions C16_stub.
+Import ListNotations.
+Open Scope Z_scope.
+
+(* T16.inv — the cache's accounting, at the boundary of EVERY operation of EVERY history:
+   any contents type and size functions (cmem <= clen), any prefix-free key set K (flat and nested
+   paths), any directory tree d0 found at opening, any limits (0 = default), any clock readings, any
+   number of sets / gets / gets of never-set keys / unloads / reopens with new limits / oversized values.
+     current_memory_usage = sum of the entries' bytes, 0 <= it <= max_memory, no entry is left writing,
+     every entry's future holds exactly the file's contents, the LRU heap has one item per entry. *)
+Theorem C16_accounting_invariant :
+  forall (C : Type) (clen cmem : C -> Z) (dirsize : Z), (forall c, 0 <= cmem c <= clen c) ->
+  forall K, prefix_free K -> forall d0 mx ops, disk_ok C K d0 -> 0 <= mx -> Forall (op_ok C K) ops ->
+  accounting C cmem (fst (kvs_run C clen cmem dirsize kvs_get_catches_fnf (open_cache C d0 mx) ops)).
+Proof. exact (accounting_flag kvs_get_catches_fnf eq_refl). Qed.
+Print Assumptions C16_accounting_invariant.
+
+(* T16.refine — the key-value store IS a dictionary (with capacity refusals): over the same histories the
+   list of results of the cache model equals the list of results of the finite-map specification —
+   a get returns the latest set, a never-set key reads :undefined, other keys are unaffected, reopening
+   changes nothing but the limit, an oversized value is refused with MemoryError and changes nothing. *)
+Theorem C16_refines_dictionary :
+  forall (C : Type) (clen cmem : C -> Z) (dirsize : Z), (forall c, 0 <= cmem c <= clen c) ->
+  forall K, prefix_free K -> forall d0 m0 mx ops, disk_ok C K d0 -> 0 <= mx ->
+  (forall k, In k K -> assoc m0 k = file_of C (lookup C d0 k)) -> Forall (op_ok C K) ops ->
+  snd (kvs_run C clen cmem dirsize kvs_get_catches_fnf (open_cache C d0 mx) ops)
+  = snd (spec_run C clen (mkS C m0 (norm_max mx)) ops).
+Proof. exact (refines_flag kvs_get_catches_fnf eq_refl). Qed.
+Print Assumptions C16_refines_dictionary.
+
+(* the same from an empty directory *)
+Theorem C16_fresh_store_is_dictionary :
+  forall (C : Type) (clen cmem : C -> Z) (dirsize : Z), (forall c, 0 <= cmem c <= clen c) ->
+  forall K, prefix_free K -> forall mx ops, 0 <= mx -> Forall (op_ok C K) ops ->
+  snd (kvs_run C clen cmem dirsize kvs_get_catches_fnf (open_cache C [] mx) ops)
+  = snd (spec_run C clen (mkS C [] (norm_max mx)) ops).
+Proof. exact (fresh_store_flag kvs_get_catches_fnf eq_refl). Qed.
+Print Assumptions C16_fresh_store_is_dictionary.
+
+Theorem C16_default_limit : default_max = default_max_src.
+Proof. exact eq_refl. Qed.
+Print Assumptions C16_default_limit.
+
+(* T16.table — the documented merge: for every index the stored row wins, then the first new row;
+   the result is sorted by index and has no duplicated index.  Closed over the regenerated facts
+   concat([old, new]) / sort_index(kind='stable') / duplicated(keep='first'). *)
+Theorem C16_table_merge_existing_rows_win : forall old new i,
+  first_row i (merge_frames old new) = match first_row i old with Some v => Some v | None => first_row i new end.
+Proof. exact (merge_flag (df_concat_old_first && df_sort_stable && df_keep_first && table_get_missing_undefined && key_to_file_path_identity) eq_refl). Qed.
+Print Assumptions C16_table_merge_existing_rows_win.
+
+Theorem C16_table_merge_sorted_unique : forall old new,
+  StronglySorted le_row (merge_frames old new) /\ NoDup (map fst (merge_frames old new)).
+Proof. exact (fun old new => conj (merge_sorted old new) (merge_index_unique old new)). Qed.
+Print Assumptions C16_table_merge_sorted_unique.
+
+(* the table store on the cache: in any reachable state, a set stores merge(stored, new) under that key
+   and leaves every other key's table alone; a get returns the stored table or :undefined *)
+Theorem C16_table_store_set :
+  forall (flen fmem : frame -> Z) (dirsize : Z), (forall f, 0 <= fmem f <= flen f) ->
+  forall K, prefix_free K -> forall (s : cache frame) n new t1 t2,
+  Inv frame fmem K s -> In n K ->
+  let old := match stored s n with Some f => f | None => [] end in
+  (match stored s n with Some f => flen f <= c_max frame s | None => True end) ->
+  flen (merge_frames old new) <= c_max frame s ->
+  exists s', tbl_set flen fmem dirsize s n new t1 t2 = (s', TSet) /\
+             Inv frame fmem K s' /\ c_max frame s' = c_max frame s /\
+             stored s' n = Some (merge_frames old new) /\
+             forall k, In k K -> k <> n -> stored s' k = stored s k.
+Proof. exact tbl_set_spec. Qed.
+Print Assumptions C16_table_store_set.
+
+Theorem C16_table_store_get :
+  forall (flen fmem : frame -> Z) (dirsize : Z), (forall f, 0 <= fmem f <= flen f) ->
+  forall K, forall (s : cache frame) n t,
+  Inv frame fmem K s -> In n K ->
+  (match stored s n with Some f => flen f <= c_max frame s | None => True end) ->
+  exists s', tbl_get flen fmem dirsize s n t = (s', match stored s n with Some f => TVal f | None => TUndef end) /\
+             Inv frame fmem K s' /\ c_max frame s' = c_max frame s /\ forall k, stored s' k = stored s k.
+Proof. exact tbl_get_spec. Qed.
+Print Assumptions C16_table_store_get.
+
+(* ---- the full statement (no restriction on keys or sizes) and why it is false for the code as written ---- *)
+Definition zid (z : Z) : Z := z.
+Definition C16_full_statement : Prop :=
+  forall mx ops, 0 <= mx ->
+    snd (kvs_run Z zid zid 4096 true (open_cache Z [] mx) ops) = snd (spec_run Z zid (mkS Z [] (norm_max mx)) ops) /\
+    accounting Z zid (fst (kvs_run Z zid zid 4096 true (open_cache Z [] mx) ops)).
+
+(* K1 (known finding C16-prefix-keys): keys "a/x" and "a".  After set a/x, the never-set key a raises
+   IsADirectoryError instead of :undefined, a set of a fails, and current_memory_usage is negative. *)
+Definition prefix_witness : list (op Z) := [OSet [1; 2] 5 1; OGet [1] 2; OSet [1] 5 3].
+Theorem C16_prefix_refuted :
+  snd (kvs_run Z zid zid 4096 true (open_cache Z [] 0) prefix_witness) = [RSet; RErr IsADirectory; RErr IsADirectory] /\
+  snd (spec_run Z zid (mkS Z [] (norm_max 0)) prefix_witness) = [RSet; RUndef; RSet] /\
+  c_mem Z (fst (kvs_run Z zid zid 4096 true (open_cache Z [] 0) prefix_witness)) = -4091.
+Proof. vm_compute. repeat split; reflexivity. Qed.
+
+Theorem C16_full_statement_refuted : ~ C16_full_statement.
+Proof.
+  intros H. destruct (H 0 prefix_witness ltac:(discriminate)) as [H1 _]. vm_compute in H1. discriminate.
+Qed.
+
+(* K2 (fixed by f420351): without the FileNotFoundError handler a never-set key raises *)
+Theorem C16_missing_refuted_without_handler :
+  snd (kvs_run Z zid zid 4096 false (open_cache Z [] 0) [OGet [1] 1]) = [RErr FileNotFound] /\
+  snd (spec_run Z zid (mkS Z [] (norm_max 0)) [OGet [1] 1]) = [RUndef].
+Proof. vm_compute. split; reflexivity. Qed.
+
+(* K3 (known finding C16-table-mem-over-limit): contents whose in-memory size exceeds the limit while the
+   serialised length fits (possible for DataFrames, not for the byte cache): the worker's assertion fails
+   after the file was written, the entry stays `writing` for ever and every later get/set of the key fails. *)
+Definition lenmem := (Z * Z)%type.
+Definition mem_witness : list (op lenmem) := [OSet [1] (10, 50) 1; OGet [1] 2; OSet [1] (10, 5) 3].
+Theorem C16_mem_over_limit_refuted :
+  snd (kvs_run lenmem fst snd 4096 true (open_cache lenmem [] 20) mem_witness)
+    = [RErr AssertionErr; RErr AssertionErr; RErr AssertionErr] /\
+  snd (spec_run lenmem fst (mkS lenmem [] 20) mem_witness) = [RSet; RVal (10, 50); RSet].
+Proof. vm_compute. split; reflexivity. Qed.
+
+(* ---- non-vacuity: a concrete history with nested keys, evictions, unload, reopen, an oversized value ---- *)
+Definition ex_K : list name := [[1]; [2; 3]; [2; 4]; [9]].
+Definition ex_ops : list (op Z) :=
+  [OSet [1] 6 1; OSet [2; 3] 5 2; OGet [1] 3; OSet [2; 4] 7 3; OGet [9] 4; OSet [1] 30 5; OUnload [2; 4];
+   OReopen 7; OGet [2; 3] 6; OGet [2; 4] 7; OGet [1] 8].
+Example C16_example_hypotheses : prefix_free ex_K /\ Forall (op_ok Z ex_K) ex_ops.
+Proof. split; [apply prefix_freeb_ok | apply op_okb_ok]; vm_compute; reflexivity. Qed.
+Example C16_example_run :
+  snd (kvs_run Z zid zid 4096 true (open_cache Z [] 12) ex_ops)
+  = [RSet; RSet; RVal 6; RSet; RUndef; RErr MemoryErr; RNone; RNone; RVal 5; RVal 7; RVal 6] /\
+  map (fun e => fst e) (c_entries Z (fst (kvs_run Z zid zid 4096 true (open_cache Z [] 12) ex_ops))) = [[1]].
+Proof. vm_compute. split; reflexivity. Qed.
+Example C16_example_merge :
+  merge_frames [(1, 10); (3, 30); (5, 50)] [(5, 51); (2, 20); (5, 52); (1, 11)] = [(1, 10); (2, 20); (3, 30); (5, 50)].
+Proof. vm_compute. reflexivity. Qed.
